@@ -616,3 +616,105 @@ func init() {
 		return symInt{st.name(tIte(boolTerm(args[0]), intTerm(args[1]), intTerm(args[2])), 64), types.Int}
 	}
 }
+
+// ---- ObserveGlobal, and sync.Map on package-level variables (C13: a result
+// must not depend on earlier calls; a cache in a package-level sync.Map is the
+// usual way to make it do so)
+
+type syncMapState struct {
+	keys []value
+	vals []value
+}
+
+func (st *pstate) syncMap(p *value) *syncMapState {
+	if st.syncMaps == nil {
+		st.syncMaps = map[*value]*syncMapState{}
+	}
+	m := st.syncMaps[p]
+	if m == nil {
+		m = &syncMapState{}
+		st.syncMaps[p] = m
+	}
+	return m
+}
+
+func (st *pstate) noteGlobalReceiver(fr *frame, p *value, what string) {
+	for g, cell := range fr.i.globals {
+		if cell == p && g.Pkg != nil && strings.HasPrefix(g.Pkg.Pkg.Path(), st.ex.Cfg.RepoPrefix) {
+			site := ""
+			if fr.caller != nil {
+				site = fr.caller.fn.String()
+			}
+			st.report("global-store", "global-store:"+g.String(), site, what+" on package-level variable "+g.String(), true)
+		}
+	}
+}
+
+func (m *syncMapState) find(k value) int {
+	ki, ok := k.(iface)
+	if !ok || ki.t == nil || containsSym(ki.v) {
+		return -1
+	}
+	for i, e := range m.keys {
+		ei, ok := e.(iface)
+		if ok && ei.t != nil && types.Identical(ei.t, ki.t) && !containsSym(ei.v) && equals(ei.t, ei.v, ki.v) {
+			return i
+		}
+	}
+	return -1
+}
+
+func init() {
+	intrinsics[zz+"ObserveGlobal"] = func(st *pstate, fr *frame, fn *ssa.Function, args []value) value {
+		g, d := goStr(args[0]), goStr(args[1])
+		st.ex.mu.Lock()
+		m := st.ex.res.Observed["global:"+g]
+		if m == nil {
+			m = map[string]int{}
+			st.ex.res.Observed["global:"+g] = m
+		}
+		m[d]++
+		st.ex.mu.Unlock()
+		return nil
+	}
+	intrinsics["(*sync.Map).Store"] = func(st *pstate, fr *frame, fn *ssa.Function, args []value) value {
+		p := args[0].(*value)
+		st.noteGlobalReceiver(fr, p, "sync.Map.Store")
+		m := st.syncMap(p)
+		if i := m.find(args[1]); i >= 0 {
+			m.vals[i] = args[2]
+		} else {
+			m.keys = append(m.keys, args[1])
+			m.vals = append(m.vals, args[2])
+		}
+		return nil
+	}
+	intrinsics["(*sync.Map).Load"] = func(st *pstate, fr *frame, fn *ssa.Function, args []value) value {
+		m := st.syncMap(args[0].(*value))
+		if i := m.find(args[1]); i >= 0 {
+			return tuple{m.vals[i], true}
+		}
+		return tuple{iface{}, false}
+	}
+	intrinsics["(*sync.Map).LoadOrStore"] = func(st *pstate, fr *frame, fn *ssa.Function, args []value) value {
+		p := args[0].(*value)
+		m := st.syncMap(p)
+		if i := m.find(args[1]); i >= 0 {
+			return tuple{m.vals[i], true}
+		}
+		st.noteGlobalReceiver(fr, p, "sync.Map.LoadOrStore")
+		m.keys = append(m.keys, args[1])
+		m.vals = append(m.vals, args[2])
+		return tuple{args[2], false}
+	}
+	intrinsics["(*sync.Map).Delete"] = func(st *pstate, fr *frame, fn *ssa.Function, args []value) value {
+		p := args[0].(*value)
+		st.noteGlobalReceiver(fr, p, "sync.Map.Delete")
+		m := st.syncMap(p)
+		if i := m.find(args[1]); i >= 0 {
+			m.keys = append(m.keys[:i], m.keys[i+1:]...)
+			m.vals = append(m.vals[:i], m.vals[i+1:]...)
+		}
+		return nil
+	}
+}
